@@ -21,6 +21,38 @@ type op struct {
 	N     int     `json:"n"`
 	Num   []int   `json:"num"`
 	Parts [][]int `json:"parts"`
+	C     int     `json:"c"`    // container the operation works on (1 = the one the history started with)
+	Keep  bool    `json:"keep"` // the returned container/slice lives on as a further container
+}
+
+// produced is the container handed out by the last operation (for op.Keep).
+var produced *container.Container
+
+// contents reads what a container holds without changing it.
+func contents(c *container.Container) (b []int) {
+	defer func() {
+		if recover() != nil {
+			b = []int{-1} // never a byte: the step is rejected
+		}
+	}()
+	return vio.Ints(c.Peek(c.Length()))
+}
+
+// handOut reports a container returned by an operation; a kept one is read without compiling it,
+// so that it goes on sharing memory with its origin as it would in a caller's hands.
+func handOut(o op, nc *container.Container) res {
+	if o.Keep {
+		produced = nc
+		return res{Ok: true, Data: contents(nc), Num: []int{0}}
+	}
+	return okData(nc.CompileData())
+}
+
+func handOutSlice(o op, b []byte) res {
+	if o.Keep {
+		produced = container.New(b)
+	}
+	return okData(b)
 }
 
 type res struct {
@@ -116,13 +148,13 @@ func exec(c *container.Container, o op) (r res) {
 		}
 		return okNone()
 	case "Peek":
-		return okData(c.Peek(o.N))
+		return handOutSlice(o, c.Peek(o.N))
 	case "PeekContainer":
 		nc := c.PeekContainer(o.N)
 		if nc == nil {
 			return errRes()
 		}
-		return okData(nc.CompileData())
+		return handOut(o, nc)
 	case "CompileData":
 		return okData(c.CompileData())
 	case "HoldsData":
@@ -132,17 +164,17 @@ func exec(c *container.Container, o op) (r res) {
 		if err != nil {
 			return errRes()
 		}
-		return okData(b)
+		return handOutSlice(o, b)
 	case "GetAsContainer":
 		nc, err := c.GetAsContainer(o.N)
 		if err != nil {
 			return errRes()
 		}
-		return okData(nc.CompileData())
+		return handOut(o, nc)
 	case "GetMax":
-		return okData(c.GetMax(o.N))
+		return handOutSlice(o, c.GetMax(o.N))
 	case "GetAll":
-		return okData(c.GetAll())
+		return handOutSlice(o, c.GetAll())
 	case "WriteToSlice":
 		buf := make([]byte, o.N)
 		n, emptied := c.WriteToSlice(buf)
@@ -157,13 +189,13 @@ func exec(c *container.Container, o op) (r res) {
 		if err != nil {
 			return errRes()
 		}
-		return okData(b)
+		return handOutSlice(o, b)
 	case "GetNextBlockAsContainer":
 		nc, err := c.GetNextBlockAsContainer()
 		if err != nil {
 			return errRes()
 		}
-		return okData(nc.CompileData())
+		return handOut(o, nc)
 	case "GetNextN":
 		var v uint64
 		var err error
@@ -224,7 +256,7 @@ func main() {
 		if err := json.Unmarshal(line, &s); err != nil {
 			return err
 		}
-		c := container.New(parts(s.Init)...)
+		cs := []*container.Container{container.New(parts(s.Init)...)}
 		init := s.Init
 		if init == nil {
 			init = [][]int{}
@@ -235,15 +267,53 @@ func main() {
 			// orchestrator sees which one it was
 			tr.EmitRaw(map[string]any{"e": "try", "op": st.Op, "h": n})
 			tr.Flush()
-			r := exec(c, st.Op)
 			o := st.Op
+			// the script was generated along one of the outcomes the model allows; where the code took
+			// another allowed one it may hold fewer containers: map the indices onto those that exist
+			if o.C < 1 {
+				o.C = 1
+			}
+			o.C = (o.C-1)%len(cs) + 1
+			existing := o.Op == "AppendExisting" || o.Op == "AppendExistingAsBlock"
+			if existing {
+				if len(cs) < 2 {
+					continue
+				}
+				if o.N < 1 {
+					o.N = 1
+				}
+				o.N = (o.N-1)%len(cs) + 1
+				if o.N == o.C {
+					o.N = o.N%len(cs) + 1
+				}
+			}
+			var r res
+			produced = nil
+			switch {
+			case existing && o.Op == "AppendExisting":
+				cs[o.C-1].AppendContainer(cs[o.N-1])
+				r = okNone()
+			case existing:
+				cs[o.C-1].AppendContainerAsBlock(cs[o.N-1])
+				r = okNone()
+			default:
+				r = exec(cs[o.C-1], o)
+			}
+			if r.Ok && r.Panic == "" && produced != nil {
+				cs = append(cs, produced)
+			}
+			c := cs[min(o.C, len(cs))-1]
+			all := make([][]int, len(cs))
+			for i := range cs {
+				all[i] = contents(cs[i])
+			}
 			if o.B == nil {
 				o.B = []int{}
 			}
 			if o.Parts == nil {
 				o.Parts = [][]int{}
 			}
-			tr.EmitRaw(map[string]any{"e": "op", "op": o, "res": r, "len": length(c), "h": n})
+			tr.EmitRaw(map[string]any{"e": "op", "op": o, "res": r, "len": length(c), "all": all, "h": n})
 			if r.Panic != "" {
 				break
 			}
